@@ -883,6 +883,25 @@ func rC06Definers(w *World, r *Report) {
 		// modifiers: dynamic calls of ModifyFn with (gopt, n) in a range over fns
 		mods := 0
 		for _, c := range allCalls(fn) {
+			// a same-module helper that applies the modifiers: h(gopt, n, fns) { for … { fn(gopt, n) } }
+			if callee := c.Common().StaticCallee(); callee != nil && callee.Blocks != nil && w.PkgOfFn(callee) != nil && isModifierApplier(callee) {
+				mods++
+				a := c.Common().Args
+				okArgs := false
+				for i, p := range callee.Params {
+					_ = p
+					if i < len(a) && a[i] == ssa.Value(nw) {
+						okArgs = true
+					}
+				}
+				if len(a) == 0 || a[0] != ssa.Value(fn.Params[0]) || !okArgs {
+					problems = append(problems, "the modifiers are not applied with (gopt, the new record)")
+				}
+				if ok, _ := ig.mustPass([]int{0}, func(in ssa.Instruction) bool { return in == adds[0] }, func(in ssa.Instruction) bool { return in == c }); !ok {
+					problems = append(problems, "modifiers can run before the option is registered")
+				}
+				continue
+			}
 			if strings.HasPrefix(calleeName(c), "dyn:getoptions.ModifyFn") {
 				mods++
 				a := c.Common().Args
@@ -969,14 +988,8 @@ func rC06Readers(w *World, r *Report) {
 			if rec == nil {
 				return
 			}
-			if ex, ok := rec.(*ssa.Extract); ok && ex.Index == 0 {
-				if lk, ok := ex.Tuple.(*ssa.Lookup); ok && lk.Index == nameParam {
-					if tb, ok := loadOfFieldNamed(lk.X, "ChildOptions"); ok {
-						if _, ok := loadOfFieldNamed(tb, "programTree"); ok {
-							good = true
-						}
-					}
-				}
+			if isOwnTableLookup(rec, fn.Params[0], nameParam, 0) {
+				good = true
 			}
 		})
 		ru.Check(good, "reader/"+t.fn, w.Pos(fn.Pos()), "reads table[name] of the viewed node", t.fn+" does not report the field of the record registered under the given name")
@@ -1211,7 +1224,11 @@ func rC07NormalIsLong(w *World, r *Report) {
 		case *ast.IfStmt:
 			var b bytes.Buffer
 			printer.Fprint(&b, w.Fset, x.Cond)
-			if strings.Contains(b.String(), `== "--"`) && strings.Contains(b.String(), "[1]") && longBody == nil {
+			paramName := ""
+			if len(decl.Type.Params.List) > 0 && len(decl.Type.Params.List[0].Names) > 0 {
+				paramName = decl.Type.Params.List[0].Names[0].Name
+			}
+			if strings.Contains(b.String(), `== "--"`) && !strings.HasPrefix(strings.TrimSpace(b.String()), paramName+" == ") && longBody == nil {
 				longBody = x.Body.List
 			}
 		case *ast.SwitchStmt:
@@ -1533,4 +1550,73 @@ func onlyLogged(mi *ssa.MakeInterface) bool {
 		}
 	}
 	return true
+}
+
+// isOwnTableLookup: rec is the record found by looking `name` up in recv.programTree.ChildOptions, directly or
+// through a same-module helper that does exactly that with its own receiver and name parameter.
+func isOwnTableLookup(rec, recv, name ssa.Value, depth int) bool {
+	ex, ok := rec.(*ssa.Extract)
+	if !ok || ex.Index != 0 {
+		return false
+	}
+	switch t := ex.Tuple.(type) {
+	case *ssa.Lookup:
+		if t.Index != name {
+			return false
+		}
+		tb, ok := loadOfFieldNamed(t.X, "ChildOptions")
+		if !ok {
+			return false
+		}
+		base, ok := loadOfFieldNamed(tb, "programTree")
+		return ok && base == recv
+	case *ssa.Call:
+		callee := t.Call.StaticCallee()
+		if callee == nil || callee.Blocks == nil || depth > 1 || len(t.Call.Args) != 2 || len(callee.Params) != 2 {
+			return false
+		}
+		if t.Call.Args[0] != recv || t.Call.Args[1] != name {
+			return false
+		}
+		all, n := true, 0
+		eachInstr(callee, func(in ssa.Instruction) {
+			if ret, ok := in.(*ssa.Return); ok && len(ret.Results) >= 1 {
+				n++
+				if !isOwnTableLookup(ret.Results[0], callee.Params[0], callee.Params[1], depth+1) {
+					all = false
+				}
+			}
+		})
+		return all && n > 0
+	}
+	return false
+}
+
+// isModifierApplier: fn(recv *GetOpt, opt *option.Option, fns []ModifyFn) calls every fns[i](recv, opt) in a loop and does nothing else with them.
+func isModifierApplier(fn *ssa.Function) bool {
+	var recv, opt ssa.Value
+	for _, p := range fn.Params {
+		switch typeString(p.Type()) {
+		case "*getoptions.GetOpt":
+			recv = p
+		case "*option.Option":
+			opt = p
+		}
+	}
+	if recv == nil || opt == nil {
+		return false
+	}
+	n := 0
+	ok := true
+	for _, c := range allCalls(fn) {
+		if calleeName(c) != nDynModifyFn {
+			continue
+		}
+		n++
+		a := c.Common().Args
+		if len(a) != 2 || a[0] != recv || a[1] != opt || !blockInCycle(c.Block()) {
+			ok = false
+		}
+	}
+	return ok && n == 1
 }
